@@ -419,9 +419,10 @@ func ruleC16(r *Report) {
 					}
 					r.Check(okM, "C16.mapping", cons, p.InstrPos(in), strings.Join(vals, ", "), why+": "+strings.Join(vals, ", "))
 					// the claim is named by the attribute's FriendlyName, else its Name (or the constant session-index claim)
-					okK := true
+					keyOrigins := rg.Origins(RV{V: mu.Key, C: act})
+					okK := len(keyOrigins) > 0
 					var keys []string
-					for _, gl := range rg.Origins(RV{V: mu.Key, C: act}) {
+					for _, gl := range keyOrigins {
 						kap := rg.Ctx(a, gl.C).AP(gl.V)
 						keys = append(keys, kap)
 						if _, isC := gl.V.(*ssa.Const); isC {
@@ -596,6 +597,7 @@ func ruleC17(r *Report) {
 	checkCookieFlags(r, p, "C17.cookie-flags")
 	checkLifetime(r, p, "C17.lifetime")
 	checkTrackURI(r, p, "C17.track-uri")
+	safely(r, func() { checkIDPInitiatedDefault(r, p, "C17.ids") })
 }
 
 // checkTrackURI: every value stored as TrackedRequest.URI under the tracker's TrackRequest (and the unexported helpers
@@ -1260,4 +1262,32 @@ func checkClaimsValid(r *Report, p *Prog, rule string, dec *ssa.Function, cs *ty
 		}
 	}
 	r.Check(ok, rule, cons, p.Pos(fn.Pos()), "the module's Valid returns nil only under the embedded claims' Valid == nil", "the claims type defines its own Valid ("+p.FnName(fn)+"), which golang-jwt calls instead of the registered claims' one, and it does not defer to it: expiry and not-before are whatever this method computes (a leeway written here extends the token's life)")
+}
+
+// checkIDPInitiatedDefault: C17.ids, configuration part. "With IdP-initiated login disabled" is the application's
+// choice: wherever samlsp builds a saml.ServiceProvider, its AllowIDPInitiated is the Options field of that name itself
+// (no other option, default or derived condition switches unsolicited responses on).
+func checkIDPInitiatedDefault(r *Report, p *Prog, rule string) {
+	n := 0
+	for _, fn := range p.modFns {
+		if !p.InLibrary(fn) || fn.Pkg == nil || fn.Pkg.Pkg.Path() != modPath+"/samlsp" {
+			continue
+		}
+		sts := litFields(fn, modPath, "ServiceProvider")["AllowIDPInitiated"]
+		if len(sts) == 0 {
+			continue
+		}
+		a := NewAnalysis(p)
+		fc := a.Ctx(fn)
+		r.Fn(p.FnName(fn))
+		for _, st := range sts {
+			n++
+			ap := fc.AP(st.Val)
+			ok := strings.HasSuffix(ap, "Options.AllowIDPInitiated") || strings.HasSuffix(ap, ".AllowIDPInitiated") && !strings.Contains(ap, "phi#") && !strings.Contains(ap, "(")
+			r.Check(ok, rule, fmt.Sprintf("%s: ServiceProvider.AllowIDPInitiated is the application's option", p.FnName(fn)), p.InstrPos(st), "<- "+ap, "AllowIDPInitiated is set from "+ap+": unsolicited responses are accepted in a configuration that did not ask for them (no tracking cookie is then required, and a RelayState that names no cookie becomes the redirect target)")
+		}
+	}
+	if n == 0 {
+		panic(unresolved{"role: samlsp function that builds the saml.ServiceProvider (store to AllowIDPInitiated)"})
+	}
 }
